@@ -7,7 +7,9 @@
 //!               milliseconds after a fixed base instant.
 //!               observation: after every op except F:  <ok|err|panic> L<k> <name>:<size|d>... ;
 //! writer case:  writer { E <kind><idx> <size> <age_ms> | S <mw> <mk> <keep_age_s|0> <write_age_s|0>
-//!                        | e<size> | snap | X <gap_ms> | Z <ms> }*
+//!                        | e<size> | snap | X <gap_ms> | Z <ms> | H <ms> }*
+//!               H <ms>: the next event is built now and handed to the writer only <ms> later (an event that
+//!               waited in a queue): what counts for rotation and deletion is when the writer gets it
 //!               observation: ovh=<n> s0=<n> then per snap/X:  | <kindidx>=<size|d>... [<id>:<size> ...] ...
 use servlin::log::internal::{LogEvent, PrefixFile, PrefixFileSet};
 use servlin::log::{tag, Level, LogFileWriter};
@@ -290,6 +292,7 @@ fn writer_case_inner(toks: &[&str]) -> String {
     let mut sender: Option<SyncSender<LogEvent>> = None;
     let mut next_id: u64 = 0;
     let mut last_written: u64 = 1_000_000_000;
+    let mut hold_ms: u64 = 0;
     let mut i = 0;
     while i < toks.len() {
         let t = toks[i];
@@ -343,6 +346,10 @@ fn writer_case_inner(toks: &[&str]) -> String {
             let size: usize = sz.parse().unwrap();
             i += 1;
             let ev = event_of(next_id, size, ovh);
+            if hold_ms > 0 {
+                std::thread::sleep(Duration::from_millis(hold_ms));
+                hold_ms = 0;
+            }
             if sender.as_ref().unwrap().send(ev).is_err() {
                 out.push_str(" | panic");
                 return out;
@@ -380,6 +387,9 @@ fn writer_case_inner(toks: &[&str]) -> String {
                     return out;
                 }
             }
+        } else if t == "H" {
+            hold_ms = toks[i + 1].parse().unwrap();
+            i += 2;
         } else if t == "Z" {
             let ms: u64 = toks[i + 1].parse().unwrap();
             i += 2;
